@@ -299,6 +299,8 @@ class QuicConn:
     def packet(self, kind, srv, frames: bytes, pn=None, pn_len=None, dcid=None, scid=None, spin=None, parts=()):
         """kind in initial|handshake|early|app -> protected packet bytes"""
         space = {"initial": "i", "handshake": "h", "early": "a", "app": "a"}[kind]
+        if pn_len is None and kind != "app":
+            pn_len = self.spec.get("hs_pnl") or None       # encoded packet-number length of long-header packets (1..4)
         pn, pn_len = self._pn(space, srv, pn, pn_len)
         if len(frames) + pn_len < 4:       # header-protection sample needs 4 bytes of pn+payload before it
             frames = b"\x00" * (4 - pn_len - len(frames)) + frames   # PADDING in front: a LEN-less STREAM frame runs to the end
